@@ -261,10 +261,8 @@ def random_presentations(rng, n_events, rep):
         rep.violation(f"serialization event rejected by Trace_Codec (SerAllowed): res={obs[i].get('res')}", {"fam": "ser_random", "cmd": cmds[i]},
                       expected="SerAllowed (SerdeModel.tla)", observed=obs[i])
     traces = codec.validate_events("Trace_Codec", "Trace_Codec.cfg", events, scope_path, rej)
-    for ev in events:
-        if ev["res"] == "ok" and len(ev["bytes"]) > 0:
-            codec.binding_check("Trace_Codec", "Trace_Codec.cfg", ev, lambda e: dict(e, bytes=e["bytes"] + [0]), scope_path)
-            break
+    codec.binding_check_some("Trace_Codec", "Trace_Codec.cfg", (ev for ev in events if ev["res"] == "ok" and len(ev["bytes"]) > 0),
+                             lambda e: dict(e, bytes=e["bytes"] + [0]), scope_path)
     return {"traces": traces, "events": len(events), "by_res": by_res, "samples": [events[0], events[len(events) // 2]]}
 
 
